@@ -335,6 +335,16 @@ func (c *Ctx) checkReadySignals() {
 			}
 		}
 		agencySrc := agencyAtom
+		// entry := StateMap[s] kept in a local: the atom names the local, its single store names the lookup
+		for _, in := range fnInstrs(u) {
+			ld, ok := in.(*ssa.UnOp)
+			if !ok || desc(ld) != agencyAtom {
+				continue
+			}
+			if t := trace(ld); strings.HasPrefix(t, "Agency<lookup(StateMap<config<") && strings.Contains(t, ",p0)") {
+				agencySrc = "lookup(" + t + ".config.StateMap,p0)"
+			}
+		}
 		if u != setState {
 			// a helper of setState: the agency is the parameter that receives StateMap[new state].Agency
 			agencyAtom, agencySrc = "", ""
